@@ -49,12 +49,20 @@ KeySets == {<<"k3">>, <<"k1", "k3">>, <<"k2", "k3">>, <<"k1", "k2", "k3">>}
 PubSets == {<< >>, <<"k1">>, <<"k2">>, <<"kx">>, <<"k1", "k2">>, <<"k1", "kx">>, <<"k2", "kx">>,
             <<"k1", "k2", "kx">>}
 
-MCInit ==
-  /\ \E keys \in KeySets, pubs \in PubSets, thr \in 0..3,
+\* the step lists a key the layout's key table does not define although the verifier knows it for another
+\* reason: the owner key the layout itself was verified with
+OwnerAsFunctionary ==
+  \E keys \in KeySets, pubs \in {<<"o1">>, <<"k1", "o1">>}, thr \in {1, 2}, st1 \in {"absent", "valid"} :
+     scn = Build(Layout(keys, pubs, thr), Own("o1"),
+                 Entries("k1", st1) \o <<Entry(<< >>, "s1", "o1", S1Link(<<GoodSig("o1")>>))>> \o <<S2Entry>>, {})
+
+Lattice ==
+  \E keys \in KeySets, pubs \in PubSets, thr \in 0..3,
         st1 \in StatesFor("k1"), st2 \in StatesFor("k2"), stx \in StatesFor("kx") :
        scn = Build(Layout(keys, pubs, thr), Own("o1"),
                    Entries("k1", st1) \o Entries("k2", st2) \o Entries("kx", stx) \o <<S2Entry>>, {})
-  /\ VInitRest
+
+MCInit == (Lattice \/ OwnerAsFunctionary) /\ VInitRest
 
 MCSpec == MCInit /\ [][VNext]_vars
 Emit == EmitAs("C02")
